@@ -209,3 +209,85 @@ func C16Fl2() {
 	}
 	zz.Fail("no fatal error within the read bound")
 }
+
+// C05Fl2Units: fixedlength2 counterpart of C05Csv2Units: three envelope declarations — A
+// needs look-ahead (rows R, or header ^H / footer ^F), B is one line matched by header ^B, C
+// is a plain one-line envelope; lines that fail A's look-ahead are handed on in order.
+func C05Fl2Units() {
+	NL := zz.Param("NL", 3)
+	f := zzMakeLines(NL, 1)
+	var a *EnvelopeDecl
+	hf := zz.NondetBool("headerFooter")
+	col := func() []*ColumnDecl { return []*ColumnDecl{{Name: "c", StartPos: 1, Length: 1, LineIndex: zzIntPtr(1)}} }
+	if hf {
+		a = &EnvelopeDecl{Name: "A", Header: zzStrPtr("^H"), Footer: zzStrPtr("^F"), Min: zzIntPtr(0), Columns: col()}
+	} else {
+		R := 2 + zz.NondetChoice("R", 2)
+		a = &EnvelopeDecl{Name: "A", Rows: zzIntPtr(R), Min: zzIntPtr(0), Max: zzIntPtr(1), Columns: col()}
+	}
+	b := &EnvelopeDecl{Name: "B", Header: zzStrPtr("^B"), Min: zzIntPtr(0), Columns: []*ColumnDecl{{Name: "c", StartPos: 1, Length: 1}}}
+	c := &EnvelopeDecl{Name: "C", Min: zzIntPtr(0), Columns: []*ColumnDecl{{Name: "c", StartPos: 1, Length: 1}}}
+	tgt := zz.NondetChoice("target", 3)
+	a.IsTarget, b.IsTarget, c.IsTarget = tgt == 0, tgt == 1, tgt == 2
+	decl := &FileDecl{Envelopes: []*EnvelopeDecl{a, b, c}}
+	zz.Assume((&validateCtx{}).validateFileDecl(decl) == nil)
+	r := NewReader("t", &zzChunkReader{data: f.input, failAt: -1}, decl, nil)
+
+	pos := 0
+	var want []string
+	starts := func(i int, ch byte) bool { return f.lines[i][0] == ch }
+	if hf {
+		for pos < len(f.lines) && starts(pos, 'H') {
+			end := -1
+			for k := pos; k < len(f.lines); k++ {
+				if starts(k, 'F') {
+					end = k
+					break
+				}
+			}
+			if end < 0 {
+				break
+			}
+			if a.IsTarget {
+				want = append(want, string(f.lines[pos]))
+			}
+			pos = end + 1
+		}
+	} else {
+		R := *a.Rows
+		if pos+R <= len(f.lines) {
+			if a.IsTarget {
+				want = append(want, string(f.lines[pos]))
+			}
+			pos += R
+		}
+	}
+	for pos < len(f.lines) && starts(pos, 'B') {
+		if b.IsTarget {
+			want = append(want, string(f.lines[pos]))
+		}
+		pos++
+	}
+	for pos < len(f.lines) {
+		if c.IsTarget {
+			want = append(want, string(f.lines[pos]))
+		}
+		pos++
+	}
+	got := 0
+	for i := 0; i < NL+2; i++ {
+		n, err := r.Read()
+		if err != nil {
+			zz.Cover("terminal")
+			zz.Assert(err == io.EOF, "every line fits a declaration here: the stream ends with EOF")
+			zz.Assert(got == len(want), "every target of the reference was delivered")
+			return
+		}
+		zz.Cover("record")
+		text, ok := zzColText(n, 0)
+		zz.Assert(got < len(want) && ok && text == want[got], "targets in input order with the right line's text")
+		got++
+		r.Release(n)
+	}
+	zz.Fail("no terminal result within the read bound")
+}
